@@ -2962,11 +2962,26 @@ fn generate_constraints_expr(
                                 node_ty.clone(),
                             );
                         }
-                        Some(Declaration::MemberFunction(func)) if receiver_has_methods => {
+                        Some(Declaration::MemberFunction(memfn)) if receiver_has_methods => {
                             // fully qualified struct/enum method
                             // example: Person.fullname(my_person)
                             //          ^^^^^
-                            helper(ctx, func.name.node(), None);
+                            let has_self = memfn.args.first().is_some_and(|a| a.name.v == "self");
+                            match args.split_first() {
+                                Some((receiver_arg, rest))
+                                    if has_self && receiver_arg.name.is_none() =>
+                                {
+                                    // names and defaults apply to the arguments after the explicit receiver
+                                    calculate_func_call_order(ctx, func.node(), rest, expr.node());
+                                    if let Some(arg_order) =
+                                        ctx.function_call_arg_order.get_mut(&expr.id)
+                                    {
+                                        arg_order.insert(0, receiver_arg.val.clone());
+                                    }
+                                }
+                                _ => calculate_func_call_order(ctx, func.node(), args, expr.node()),
+                            }
+                            helper(ctx, memfn.name.node(), None);
                         }
                         Some(Declaration::FreeFunction(FuncResolutionKind::Ordinary(func))) => {
                             // namespaced function
